@@ -398,9 +398,27 @@ func edgeCond(pred, succ *ssa.BasicBlock) []Cond {
 
 func c17EmptyBatch(r *Run) {
 	p := r.P
+	// the single-entry iterator mkNext1 hands out: its closure, or a bound method of a state object
 	var cl *ssa.Function
-	if mk := p.Fn("p9p:mkNext1"); mk != nil && len(mk.AnonFuncs) == 1 {
-		cl = mk.AnonFuncs[0]
+	if mk := p.Fn("p9p:mkNext1"); mk != nil {
+		if len(mk.AnonFuncs) == 1 {
+			cl = mk.AnonFuncs[0]
+		} else {
+			for _, ret := range returnsOf(mk) {
+				if mc, ok := stripConv(ret.Results[0]).(*ssa.MakeClosure); ok {
+					if f, ok := mc.Fn.(*ssa.Function); ok {
+						if f.Synthetic != "" && f.Object() != nil {
+							if tf, ok := f.Object().(*types.Func); ok {
+								f = mk.Prog.FuncValue(tf)
+							}
+						}
+						if f != nil && f.Blocks != nil {
+							cl = f
+						}
+					}
+				}
+			}
+		}
 	}
 	if cl == nil {
 		r.Undecided("iterator", "mkNext1 closure", token.NoPos, "anchor not found")
@@ -413,7 +431,14 @@ func c17EmptyBatch(r *Run) {
 		if !ok {
 			return
 		}
+		isFlag := false
 		if fv, ok := st.Addr.(*ssa.FreeVar); ok && fv.Name() == "done" {
+			isFlag = true
+		}
+		if f, ok := st.Addr.(*ssa.FieldAddr); ok && len(cl.Params) > 0 && f.X == ssa.Value(cl.Params[0]) && fieldName(f.X.Type(), f.Field) == "done" {
+			isFlag = true // the flag kept in the iterator's state object
+		}
+		if isFlag {
 			if c, ok := st.Val.(*ssa.Const); ok && c.Value != nil && c.Value.String() == "true" {
 				fa := p.FA(cl)
 				facts := fa.FactsAt(st)
